@@ -47,7 +47,7 @@ impl LoopCampaign {
     let (layout, name) = match self.source {
       SourceB::Shipped => { let n = &self.shipped[rng.below(self.shipped.len())]; (n.layout.clone(), n.name.clone()) }
       SourceB::Random => {
-        let o = LayoutOpts { weird: rng.chance(1, 5), related: rng.chance(1, 2), absorbing: rng.chance(1, 3), norepeat: rng.chance(1, 2), special: self.force_special || rng.chance(2, 3), max_map: if thorough { rng.range(1, 6) } else { rng.range(1, 4) }, big: thorough && rng.chance(1, 3), edge_times: true };
+        let o = LayoutOpts { weird: rng.chance(1, 5), related: rng.chance(1, 2), dense: rng.chance(1, 6), absorbing: rng.chance(1, 3), norepeat: rng.chance(1, 2), special: self.force_special || rng.chance(2, 3), max_map: if thorough { rng.range(1, 6) } else { rng.range(1, 4) }, big: thorough && rng.chance(1, 3), edge_times: true };
         let mut tries = 0;
         loop {
           let mut l = if rng.chance(1, 4) { gen_motif_layout(&mut rng, &o) } else { gen_layout(&mut rng, &o) };
@@ -109,6 +109,10 @@ impl LoopCampaign {
       p_oversleep: swarm(&mut rng, &[20, 60]),
       max_interrupts: rng.below(5) as u32,
     };
+    // storms: now and then one fault kind fires at almost every opportunity, so that long runs of
+    // consecutive spurious time-outs, spurious readiness reports or interruptions occur
+    let mut cfg = cfg;
+    match rng.below(24) { 0 => cfg.p_spurious_timeout = 90, 1 => cfg.p_spurious_ready = 90, 2 => { cfg.p_eintr = 85; cfg.max_interrupts = 6 + rng.below(5) as u32; } _ => {} }
     let span = t.max(1);
     let kbd_end_at = if rng.chance(1, 8) { Some(rng.below(span as usize + 1) as u64) } else { None };
     let tab_end_at = if has_tablet && rng.chance(1, 16) { Some(rng.below(span as usize + 1) as u64) } else { None };
